@@ -3,7 +3,7 @@ import copy
 
 from hypothesis import strategies as st
 
-from pbt.common import env, runner, snap, fresh as F, spec as S, gen as G
+from pbt.common import env, runner, snap, fresh as F, spec as S, gen as G, edits as E, machine as M
 
 env.import_efootprint()
 
@@ -39,8 +39,14 @@ JOB_ALL = ["hourly_occurrences_per_usage_pattern", "hourly_avg_occurrences_per_u
 @st.composite
 def cases(draw):
     spec = draw(G.specs())
+    live = None
+    if draw(st.floats(0, 1)) < 0.35:
+        # the same relation on a live model: the driver is scaled by an edit (all at once or one input at a time),
+        # possibly after a short history of other edits
+        live = {"history": draw(G.histories(spec, min_steps=0, max_steps=3, refusals=0.25)),
+                "grouped": draw(st.booleans()), "resubmitted": draw(st.integers(0, 3))}
     return {"spec": spec, "id_seed": draw(st.integers(0, 2 ** 20)), "driver": draw(st.sampled_from(DRIVERS)),
-            "pick": draw(st.integers(0, 10 ** 6)), "k": draw(st.sampled_from(KS))}
+            "pick": draw(st.integers(0, 10 ** 6)), "k": draw(st.sampled_from(KS)), "live": live}
 
 
 def scale_attr(spec, name, attr, k):
@@ -248,7 +254,98 @@ def check(case, ctx):
         ctx.violation("wrong_proportion", case, "; ".join(problems[:3]),
                       {"kind": "wrong_proportion", "driver": driver, "attr": problems[0].split(" ")[0]
                        .split(".")[-1]})
+    elif case.get("live"):
+        live_response(case, ctx, labels)
     ctx.case(case, nontrivial, labels, sample={"driver": driver, "target": target, "k": k})
+
+
+def spec_diff_edits(a, b):
+    """The input edits that lead from spec a to spec b (quantities and hourly series only)."""
+    out = []
+    for n in sorted(b["objs"]):
+        ea, eb = a["objs"][n], b["objs"][n]
+        if ea.get("starts") != eb.get("starts") or ea.get("start") != eb.get("start"):
+            out.append(dict(op="hourly", obj=n, start=list(eb["start"]), starts=list(eb["starts"])))
+        for attr in sorted(eb):
+            if attr in ("starts", "start", "cls", "name"):
+                continue
+            if ea.get(attr) != eb[attr]:
+                out.append(dict(op="q", obj=n, attr=attr, val=list(eb[attr])))
+    return out
+
+
+class _Quiet:
+    def violation(self, *a, **k):
+        return False
+
+
+def live_response(case, ctx, labels):
+    """The driver scaled by an edit of a live model (after a short history): same factors as between fresh builds."""
+    lv, driver, k = case["live"], case["driver"], case["k"]
+    summary = M.run_history({"spec": case["spec"], "id_seed": case["id_seed"] + 7, "history": lv["history"]},
+                            _Quiet(), compare_fresh=False, check_totals=False, check_undo=False)
+    if summary.get("live") is None or summary["status"] != "ok":
+        labels.append("live_history_" + summary["status"])
+        return
+    objs, sf = summary["live"], summary["final_spec"]
+    p = plan(sf, driver, case["pick"], k)
+    if p is None:
+        labels.append("live_driver_not_applicable")
+        return
+    sp, exp, affine, unchecked, target, _ = p
+    edits = spec_diff_edits(sf, sp)
+    if not edits:
+        labels.append("live_nothing_to_scale")
+        return
+    fresh, exc = F.build_case({"spec": sp, "id_seed": case["id_seed"] + 8})
+    if fresh is None:
+        labels.append("live_scaled_invalid")
+        return
+    if lv["grouped"] and lv.get("resubmitted"):
+        # a client that re-submits unchanged fields of the edited objects together with the changed one
+        same = [dict(op="q", obj=e_["obj"], attr=a_, val=list(v_)) for e_ in edits
+                for a_, v_ in sorted(sf["objs"][e_["obj"]].items())
+                if a_ in S.quantity_inputs(sf["objs"][e_["obj"]]["cls"]) and a_ != e_.get("attr")
+                and a_ != "fixed_nb_of_instances" and isinstance(v_, list)]
+        uniq = []
+        for e_ in same:
+            if not any(x["obj"] == e_["obj"] and x["attr"] == e_["attr"] for x in uniq + edits):
+                uniq.append(e_)
+        edits = uniq[:lv["resubmitted"]] + edits
+        labels.append("live_resubmitted_unchanged=%d" % min(lv["resubmitted"], len(uniq)))
+    before = snap.snapshot(S.reachable(objs))
+    try:
+        with M.watchdog():
+            if lv["grouped"] and len(edits) > 1:
+                E.apply_live(objs, dict(op="group", edits=edits), sf)
+            else:
+                cur = sf
+                for e in edits:
+                    E.apply_live(objs, e, cur)
+                    cur = E.apply_spec(cur, e)
+    except Exception as ex:
+        labels.append("live_edit_refused")     # acceptance of valid edits is C01's subject
+        return
+    labels.append("live_scaled" + ("_after_history" if lv["history"] else "") +
+                  ("_refusal_in_history" if summary.get("refused") else ""))
+    after = snap.snapshot(S.reachable(objs))
+    problems = []
+    for key in sorted(set(before) | set(after)):
+        if key in unchecked or key in affine:
+            continue
+        if key not in before or key not in after:
+            problems.append("%s present on one side only" % (key,))
+            continue
+        f = exp.get(key, 1.0)
+        ok, why = snap.close(scaled(before[key], f), after[key], rtol=1e-9)
+        if not ok:
+            problems.append("%s.%s should be multiplied by %g when %s of %s is multiplied by %g on the live model%s: "
+                            "%s" % (key[0], key[1], f, driver, target, k,
+                                    " (after %d edit(s))" % len(lv["history"]) if lv["history"] else "", why))
+    if problems:
+        ctx.violation("wrong_proportion", case, "; ".join(problems[:3]),
+                      {"kind": "wrong_proportion", "driver": driver, "site": "live",
+                       "attr": problems[0].split(" ")[0].split(".")[-1]})
 
 
 def replay(case, ctx):
